@@ -1,6 +1,7 @@
 # C06 renet survives hostile packets: obligations + error mapping
 import re
 from sa.rules import *
+import rules.shared as shared
 from rules.oblcommon import obl_rule
 import rules.C09 as C09
 
@@ -29,11 +30,12 @@ def rules(t):
         a = fmt(t.arg(c, 0))
         if "from_bytes" in a or "process_" in a: r.bad("unwrap-on-input", c, "unwrap on a result that depends on packet bytes")
     out.append(r)
-    r = RuleResult("C06.c", "accounted receive memory stays within budget and never wraps (PAIR + budget guards, shared with C09)", floor=2)
+    r = RuleResult("C06.c", "accounted receive memory stays within budget and never wraps (PAIR + budget guards, shared with C09)", floor=4)
     for rr in C09.rules(t):
-        if rr.id in ("C09.a", "C09.b"):
+        if rr.id in ("C09.a", "C09.b", "C09.f", "C09.g"):
             r.sites += 1
             for v in rr.violations:
-                if "Receive" in v.key or "release-from-param" in v.key: r.bad(v.key.split("|", 1)[1], v.site, v.msg)
+                if "Receive" in v.key or "release-from-param" in v.key or "timestamp" in v.key: r.bad(v.key.split("|", 1)[1], v.site, v.msg)
     out.append(r)
+    out.append(shared.range_algebra(t, "C06.d"))
     return out
